@@ -15,6 +15,9 @@ def machinery_hash():
             h.update(open(os.path.join(vlib.VERIF, f), "rb").read())
         except OSError:
             pass
+    cm = os.path.join(vlib.VERIF, "corpus_min")
+    for f in sorted(os.listdir(cm)) if os.path.isdir(cm) else []:
+        h.update(f.encode() + open(os.path.join(cm, f), "rb").read())
     return h.hexdigest()[:8]
 
 
@@ -104,7 +107,8 @@ def plan(tier):
     if os.path.isdir(cm):
         for f in sorted(os.listdir(cm)):
             if f.endswith(".vhd"):
-                jobs.insert(0, dict(path=os.path.join(cm, f), argv=[], kind="corpus"))
+                side = os.path.join(cm, f[:-4] + ".yaml")  # the configuration the input needs to show what it was kept for
+                jobs.insert(0, dict(path=os.path.join(cm, f), argv=["-c", side] if os.path.exists(side) else [], kind="corpus"))
     return jobs
 
 
